@@ -4719,12 +4719,8 @@ where
                 )
               })
           }
-          _ => Some(format!(
-            "expected value {} {}, got {:?}",
-            self.state.ctrl.unwrap(),
-            t,
-            b
-          )),
+          Some(ctrl) => Some(format!("expected value {} {}, got {:?}", ctrl, t, b)),
+          None => Some(format!("expected value {}, got {:?}", t, b)),
         },
         #[cfg(feature = "additional-controls")]
         token::Value::BYTE(bv) => match &self.state.ctrl {
